@@ -17,6 +17,7 @@
  *   wchunk=<fd>:<seed>:<max> every write on fd accepts <= 1+prng%max bytes
  *   rchunk=<seed>:<max>      every script read delivers <= 1+prng%max bytes
  *   hint=<n>                 size reported by statx/fstat for the script
+ *   ftype=<fifo|chr|tty>     (tty: a character device for which isatty() answers yes)
  *   ftype=<fifo|chr>         file type reported by stat/statx/fstat for the script (size 0),
  *                            lseek on it fails with ESPIPE, and the stream position is shared by
  *                            all opens: the script arrives through a pipe
@@ -112,7 +113,7 @@ static int g_rpersist = 0, g_rpending = 0, g_rpending_persist = 0;
 static unsigned long long g_rchunk_state = 0; static long g_rchunk_max = 0;
 
 static long g_hint = -1, g_eof = -1;
-static int g_ftype = 0; /* 0 regular, 1 fifo, 2 character device */
+static int g_ftype = 0; /* 0 regular, 1 fifo, 2 character device, 3 terminal */
 static int g_nb_mode = 0; /* 0 none, 1 late writer, 2 slow writer */
 static long g_nb_n = 0;
 static int g_nb_done = 0;
@@ -223,6 +224,7 @@ static void plan_init(void) {
         else if (starts(p, "nb=slow:")) { p += 8; g_nb_mode = 2; g_nb_n = parse_long(&p); }
         else if (starts(p, "ftype=fifo")) { p += 10; g_ftype = 1; }
         else if (starts(p, "ftype=chr")) { p += 9; g_ftype = 2; }
+        else if (starts(p, "ftype=tty")) { p += 9; g_ftype = 3; }
         else if (starts(p, "eof=")) { p += 4; g_eof = parse_long(&p); g_virtual = 1; }
         else if (starts(p, "flip=")) {
             p += 5; g_flip_off = parse_long(&p); if (*p == ':') p++;
@@ -513,6 +515,23 @@ int openat64(int dirfd, const char *path, int flags, ...) {
     mode_t mode = 0;
     if (flags & (O_CREAT | O_TMPFILE)) { va_list ap; va_start(ap, flags); mode = va_arg(ap, mode_t); va_end(ap); }
     return do_open(dirfd, path, flags, mode);
+}
+
+/* -------------------------------------------------------------- isatty */
+
+int isatty(int fd) {
+    plan_init();
+    if (fd >= 0 && fd < MAX_FDS && g_is_script[fd]) {
+        int yes = g_ftype == 3;
+        log_event('S', fd, 0, yes, 0, yes ? "isatty" : "-", NULL, 0);
+        if (yes) return 1;
+        errno = ENOTTY;
+        return 0;
+    }
+    unsigned char buf[256]; /* larger than any kernel struct termios */
+    long r = syscall(SYS_ioctl, fd, 0x5401 /* TCGETS */, buf);
+    if (r == 0) return 1;
+    return 0;
 }
 
 /* --------------------------------------------------------------- fcntl */
